@@ -59,13 +59,13 @@ def c03(ctx):
 
 
 # --------------------------------------------------------------------------- C10
-def gen_c10_case(r):
+def gen_c10_case(r, kind=None):
     c = PT.gen_update_case(r, rounds=0)
     t = c.tree
     upd, save = c.ops[0], c.ops[1]
     files = sorted(c.meta.get('files') or [])
     paths = [''] + [d for d in c.meta['dirs'] if d]
-    kind = r.choice(['plain', 'plain', 'fault', 'badpath', 'xdev', 'loop', 'discard'])
+    kind = kind or r.choice(['plain', 'plain', 'fault', 'badpath', 'xdev', 'loop', 'discard'])
     c.meta['c10'] = kind
     pre = []
     for _ in range(r.randint(0, 3)):
@@ -79,9 +79,11 @@ def gen_c10_case(r):
         else:
             pre.append(['find_dist_entry', 'dist-%d.tar.gz' % r.randint(0, 3), r.choice(paths)])
     if kind == 'fault':
-        inos = list(t.nodes.items())
-        i, n = r.choice(inos)
-        prim = r.choice(['scandir', 'stat', 'open']) if n['k'] == 'd' else r.choice(['open', 'fstat', 'read', 'all'])
+        reach = dict((ino, p) for p, ino in t.files())
+        inos = [(i, n) for i, n in t.nodes.items() if n['k'] == 'd' or i in reach]
+        mfiles = [(i, t.nodes[i]) for i, p in reach.items() if os.path.basename(p).startswith('Manifest')]
+        i, n = r.choice(mfiles) if mfiles and r.random() < 0.5 else r.choice(inos)
+        prim = r.choice(['scandir', 'stat', 'open']) if n['k'] == 'd' else r.choice(['open', 'fstat', 'read', 'all', 'mopen', 'mopen'])
         en = r.choice(PT.ERRNOS)
         c.faults = [[q, i, en] for q in ('open', 'stat', 'fstat', 'read', 'scandir')] if prim == 'all' else [[prim, i, en]]
         c.meta['fault'] = [prim, i, en, n['k']]
@@ -154,7 +156,12 @@ def c10_check_case(ctx, c, out, report):
     if 'post' not in state or first is None or loaded_before is None:
         return None
     post = state['post']
+    if c.tree.link_paths():
+        return None       # directory symlinks: a Manifest file has several names (see finding D20)
     mans = set(loaded_before) | set(loaded_after or ())
+    # a forced save loads (and may recompress) further Manifests: the earlier names of loaded Manifests
+    logic = {logical(x) for x in mans}
+    mans |= {p for p in first if logical(p) in logic and os.path.basename(p).startswith('Manifest')}
     # (a) no file other than Manifest files is modified, created or deleted
     for p in sorted(set(first) | set(post)):
         if p in mans:
@@ -165,21 +172,38 @@ def c10_check_case(ctx, c, out, report):
     pre_files = {p: d for p, (d, m) in first.items()}
     post_files = {p: d for p, (d, m) in post.items()}
     pre_by = {}
-    for m in loaded_before:
-        if m in pre_files:
-            pre_by[logical(m)] = OX.parse(m, pre_files[m])
     post_by = {}
-    for m in (loaded_after or ()):
-        if m in post_files:
-            post_by.setdefault(logical(m), OX.parse(m, post_files[m]))
+    la = loaded_after or set()
+    for m in loaded_before:
+        if m not in pre_files:
+            continue
+        if m in la:
+            n = m
+        else:
+            cand = [x for x in la - loaded_before if logical(x) == logical(m)]
+            if len(cand) != 1:
+                continue
+            n = cand[0]
+        if n in post_files:
+            pre_by[m] = OX.parse(m, pre_files[m])
+            post_by[m] = OX.parse(n, post_files[n])
+    all_post_ignores = {OX.norm(os.path.dirname(lm2), e[1]) for lm2, ents in post_by.items() for e in (ents or ()) if e[0] == 'IGNORE'}
     for lm, pre_ents in pre_by.items():
         post_ents = post_by.get(lm)
         if pre_ents is None or post_ents is None:
             continue
         d = os.path.dirname(lm)
-        keep = lambda ents: sorted(e[4] for e in ents if e[0] in ('DIST', 'IGNORE', 'TIMESTAMP'))
+        keep = lambda ents: sorted(e[4] for e in ents if e[0] in ('DIST', 'TIMESTAMP'))
         if keep(pre_ents) != keep(post_ents):
-            report('dist-ignore-timestamp', f'{lm}: DIST/IGNORE/TIMESTAMP lines changed: {keep(pre_ents)} -> {keep(post_ents)}')
+            report('dist-timestamp', f'{lm}: DIST/TIMESTAMP lines changed: {keep(pre_ents)} -> {keep(post_ents)}')
+        # IGNORE: none added; one may go only as the duplicate of an IGNORE of the same path that stays (de-duplication)
+        ign = lambda ents: sorted(OX.norm(d, e[1]) for e in ents if e[0] == 'IGNORE')
+        ipre, ipost = ign(pre_ents), ign(post_ents)
+        if any(ipost.count(x) > ipre.count(x) for x in set(ipost)):
+            report('ignore-added', f'{lm}: IGNORE lines added: {ipre} -> {ipost}')
+        for x in set(ipre):
+            if ipost.count(x) < ipre.count(x) and x not in all_post_ignores:
+                report('ignore-lost', f'{lm}: IGNORE {x} lost: {ipre} -> {ipost}')
         # entries for paths outside the updated directory (MANIFEST entries of the chain above it may be refreshed)
         def outside(ents):
             return sorted(e[4] for e in ents if e[0] in OX.FILE_TAGS and not OX.under(OX.norm(d, e[1]), upath or '')
